@@ -38,6 +38,7 @@ type c13Scn struct {
 	FailedIdx   []int    `json:"failedIdx"`
 	MultiFailed bool     `json:"multiFailed"`
 	Variant     string   `json:"variant,omitempty"`
+	Idx         *int     `json:"idx,omitempty"` // replay: the position the scenario had in its batch
 	idx         int
 }
 
@@ -302,6 +303,10 @@ func c13(_ []string) error {
 		}
 
 		s.idx = len(scns)
+		if s.Idx != nil {
+			s.idx = *s.Idx
+		}
+
 		scns = append(scns, s)
 
 		return nil
